@@ -41,7 +41,11 @@ META = dict(
          "(raw and CRC/length-consistent), every cell-boundary truncation and the first 64 byte truncations, bit flips in "
          "CRC extents and cell headers, cross-version decodes; consistent damage (one length/count +-1 or trailing junk in an "
          "extent, every CRC and enclosing length recomputed: must fail, return exactly the original records, or be flagged "
-         "partial by the decoder); mutated frames (length field 0..9, 2^31-1, around MaxResponseSize, truncated headers, wrong "
+         "partial by the decoder); every push/pop-verified length and CRC field at every nesting level (message blocks incl. first/middle/last "
+         "compressed wrapper blocks per codec, records in batches, through Fetch v0-v3 framing) set to len-1, len+1, 0, -1, "
+         "MinInt32, len/2, 2*len, the inner-set length / CRC^1, CRC^msb, 0, other polynomial with everything around it "
+         "recomputed: must be reported as an error unless the decoder flags a partial tail or a fetch block drops whole "
+         "trailing batches; mutated frames (length field 0..9, 2^31-1, around MaxResponseSize, truncated headers, wrong "
          "correlation id) through a real Broker over loopback for a v0- and a v1-header request; thorough adds every-byte bit flips and seeded random damage. "
          "Clauses no_panic, no_hang, alloc_proportional, crc_or_length_damage_is_error and the primitive contract are "
          "evaluated by TLC on every recorded outcome.",
@@ -120,7 +124,7 @@ def features0(e):
             f["cause"] = "length_" + e["retc"]
         return f
     return {"fam": "body", "type": e.get("type"), "ver": e.get("ver"), "kind": e.get("kind"), "trig": e.get("trig"),
-            "prim": e.get("prim"), "caller": e.get("caller"), "fix": e.get("fix"), "pos": e.get("pos"), "runver": e.get("runver"), "strict": e.get("strict"), "partial": e.get("partial"),
+            "prim": e.get("prim"), "caller": e.get("caller"), "fix": e.get("fix"), "pos": e.get("pos"), "runver": e.get("runver"), "strict": e.get("strict"), "mustfail": e.get("mustfail"), "partial": e.get("partial"),
             "res": e.get("res"), "site": e.get("site"),
             "cause": e.get("cause") if e.get("cause") not in ("-", None) else e.get("res"),
             "err": e.get("err"), "alloc_kib": e.get("alloc"), "inlen": e.get("inlen"), "got": e.get("got"), "hex": e.get("hex")}
